@@ -793,7 +793,8 @@ def run_all(mir_path, repo, methods=METHODS, jobs=None):
     tasks = [(mir_path, repo, m, shape) for m in methods for shape in itertools.product([False, True], repeat=NCL)]
     jobs = jobs or min(12, os.cpu_count() or 4)
     with mp.get_context('fork').Pool(jobs, initializer=_worker_init) as pool:
-        outs = pool.map(run_task, tasks, chunksize=1)
+        # (a worker that dies would make a plain map() wait forever)
+        outs = pool.map_async(run_task, tasks, chunksize=1).get(timeout=int(os.environ.get('VERIF_I_TIMEOUT', '600')))
     classes = {}
     for o in outs:
         m = o['method']
